@@ -64,7 +64,8 @@ SELECTORS = st.one_of(
 
 @st.composite
 def cases(draw, tier):
-    kind = draw(st.sampled_from(["int", "dyadic", "small", "count"]))
+    kind = draw(st.sampled_from(["int", "dyadic", "small", "count",
+                                 "frac"]))
     distinct = draw(st.booleans())
     spec = draw(gen.table_specs(tier, values=kind, distinct=distinct,
                                 md=True, history=True))
